@@ -97,6 +97,38 @@ def run_ops(case, stats=None, flavour=None):
                 after = driver.snapshot()
                 if after != before or step.sent:
                     raise Violation("refused_call_has_effect", case, f"{where}: raised {step.call_exc!r} yet changed {lockstep.diff_keys(before, after)}")
+        elif kind == "race_set":
+            # The threaded gateways run the pump in its own thread while the user's thread calls
+            # set_child_value: arm a controller call that lands between two queued commands of the
+            # next inbound line (the pump is "pre-empted" at an add_job boundary).
+            armed = dict(op)
+            tasks = gw.tasks
+            orig_add = tasks.add_job
+            state = {"n": 0, "call_exc": None, "fired": False}
+
+            def add_job(func, *args, _orig=orig_add, _state=state, _armed=armed):
+                if _state["n"] == _armed["at"] and not _state["fired"]:
+                    _state["fired"] = True
+                    try:
+                        gw.set_child_value(_armed["n"], _armed["c"], _armed["vt"], _armed["value"])
+                    except Exception as exc:  # pylint: disable=broad-except
+                        _state["call_exc"] = exc  # raised to the caller: allowed
+                _state["n"] += 1
+                return _orig(func, *args)
+
+            tasks.add_job = add_job
+            try:
+                step = driver.line(op["then"])
+            finally:
+                tasks.add_job = orig_add
+            if step.exc is not None:
+                raise Violation(
+                    f"crash.{type(step.exc).__name__}", case,
+                    f"{where}: a set_child_value call that landed while the pump was processing {op['then']!r} (returned normally: {state['call_exc'] is None}) made the pump raise {type(step.exc).__name__}: {step.exc}",
+                )
+            if state["fired"]:
+                deep = True
+                interesting += 1
         elif kind == "fw":
             image = lockstep.image_bytes(op["image"]) if op.get("image") else None
             step = driver.update_fw(op["nids"], op["type"], op["ver"], image=image, via_path=bool(op.get("via_path")))
@@ -140,7 +172,7 @@ def minimise(v):
 
 GEN = dict(
     max_ops=40, wire_carriable=False, allow_unpinned=True, wild_vt=True, flavours=FLAVOURS,
-    op_weights=dict(valid=45, wild=18, near=10, raw=8, set=12, fw=4, cb_raise=2, metric=1, clock=0),
+    op_weights=dict(valid=45, wild=18, near=10, raw=8, set=12, fw=4, cb_raise=2, metric=1, clock=0, race=3),
 )
 
 
